@@ -9,8 +9,9 @@ os.makedirs(dst, exist_ok=True)
 for f in ('patch.diff', 'demo.py', 'notes.md'):
     if os.path.exists(os.path.join(src, f)):
         shutil.copy(os.path.join(src, f), dst)
-if os.path.exists(src + '/verify.json') and not os.path.exists(dst + '/verify_initial.json'):
-    shutil.copy(src + '/verify.json', dst + '/verify_initial.json')
+first = src + ('/verify_first.json' if os.path.exists(src + '/verify_first.json') else '/verify.json')
+if not os.path.exists(dst + '/verify_initial.json'):
+    shutil.copy(first, dst + '/verify_initial.json')
 v = json.load(open(dst + '/verify_initial.json'))
 assert v['demo_without_change_exit'] == 0 and v['demo_with_change_exit'] != 0 and '187 passed' in v['tests'], v
 json.dump({'id': '%s-s%s' % (pid, rnd), 'breaks_property': pid, 'change': change, 'needs_to_manifest': needs,
